@@ -70,7 +70,8 @@ Proof.
        | |- context [match utf8 ?s with _ => _ end] =>
            let E := fresh "E" in destruct (utf8 s) eqn:E; [apply utf8_wf in E|]
        end; try discriminate; intros H; injection H as <-.
-  all: repeat (apply Forall_cons || apply wf_bytes_app || split || assumption || (constructor; fail) || lia).
+  all: apply Forall_cons; [reflexivity|]; try assumption.
+  all: apply Forall_app; split; [assumption|]; apply Forall_cons; [reflexivity|assumption].
 Qed.
 
 (* ---- 64 lower-case hex digits decode to 32 bytes ---- *)
@@ -122,7 +123,7 @@ Qed.
 Inductive key_kind (d : kvdb) (k : bytes) : Prop :=
 | KTomb : k = tombstone -> key_kind d k
 | KPrim e idb : id_bytes e = Some idb -> k = primary_key_of idb -> stored_wf e -> key_kind d k
-| KEntry e idb : id_bytes e = Some idb -> In (primary_key_of idb) (keys d) -> hex64 (w_id e) = true ->
+| KEntry e idb : id_bytes e = Some idb -> In (primary_key_of idb, REvent e) d -> hex64 (w_id e) = true ->
                  is_entry e k -> key_kind d k.
 
 Lemma coherent_key_kind d : Coherent d -> forall k, In k (keys d) -> key_kind d k.
@@ -137,7 +138,6 @@ Proof.
     destruct (Hk _ _ Hpin) as [Hbad|[[e' [He' [Hp' Hw']]]|[Hbad _]]]; [discriminate| |discriminate].
     injection He' as <-.
     eapply KEntry; eauto.
-    + unfold keys. apply in_map_iff. exists (primary_key_of idb, REvent e). auto.
     + apply Hw'.
     + eapply index_entries_is_entry; eauto.
 Qed.
@@ -161,8 +161,15 @@ Proof. intros H. destruct (to_key_prefix i m kk H) as [r ->]. eexists. reflexivi
 Lemma in_index_matches_created e m : In (IxCreated, m) (index_matches e) -> m = MInt (w_created e).
 Proof.
   unfold index_matches. intros H. apply in_app_or in H. destruct H as [H|H].
-  - simpl in H. repeat (destruct H as [H|H]; [injection H as <-; try reflexivity; try discriminate|]);
-      try discriminate; try contradiction.
+  - simpl in H. repeat (destruct H as [H|H]; [inversion H; reflexivity|]). destruct H.
+  - apply in_flat_map in H. destruct H as [t [_ Ht]]. destruct (tag_indexable t); [|destruct Ht].
+    destruct Ht as [Ht|[]]. discriminate.
+Qed.
+
+Lemma in_index_matches_not_ids e m : ~ In (IxIds, m) (index_matches e).
+Proof.
+  unfold index_matches. intros H. apply in_app_or in H. destruct H as [H|H].
+  - simpl in H. repeat (destruct H as [H|H]; [discriminate|]). destruct H.
   - apply in_flat_map in H. destruct H as [t [_ Ht]]. destruct (tag_indexable t); [|destruct Ht].
     destruct Ht as [Ht|[]]. discriminate.
 Qed.
@@ -184,7 +191,7 @@ Proof.
       apply in_index_matches_created in Him. subst m. simpl in Hk.
       rewrite Hct in Hk. injection Hk as <-.
       pose proof (be4_length _ _ Hct) as Hlc. destruct (length4 ct Hlc) as [a [b [c [x ->]]]].
-      unfold entry_key. simpl. rewrite app_length. simpl. unfold bytes, byte in *. rewrite Hl. split; reflexivity.
+      unfold entry_key. simpl. unfold bytes, byte in *. rewrite Hl. split; reflexivity.
 Qed.
 
 Lemma coherent_floor d : Coherent d -> forall i, floor_ok (keys d) i.
@@ -193,14 +200,15 @@ Proof.
   assert (H : i <> IxIds -> keys d <> [] -> nth 0 (hd [] (keys d)) 0%N <> idx_prefix i).
   { intros Hi Hne Hp.
     assert (Hin : In (hd [] (keys d)) (keys d)) by (destruct (keys d); [congruence|left; reflexivity]).
-    destruct (coherent_key_kind d Hc _ Hin) as [E|e idb _ E _|e idb _ Hpin _ [i' [m [kk [ct [idb' [_ [Hk [_ [_ E]]]]]]]]]].
+    destruct (coherent_key_kind d Hc _ Hin) as [E|e idb _ E _|e idb _ Hpin _ [i' [m [kk [ct [idb' [Him [Hk [_ [_ E]]]]]]]]]].
     - rewrite E in Hp. destruct i; simpl in Hp; discriminate.
     - rewrite E in Hp. destruct i; simpl in Hp; try discriminate. congruence.
     - (* an index entry cannot be the first key: its event's primary record is smaller *)
-      pose proof (sorted_hd_le (keys d) (primary_key_of idb) Hs Hpin) as Hle.
+      assert (Hpin' : In (primary_key_of idb) (keys d)) by (unfold keys; apply in_map_iff; exists (primary_key_of idb, REvent e); auto).
+      pose proof (sorted_hd_le (keys d) (primary_key_of idb) Hs Hpin') as Hle.
       destruct (entry_first_byte i' m kk ct idb' Hk) as [r Hr]. rewrite E, Hr in Hle.
       apply Hle. unfold primary_key_of. simpl.
-      destruct i'; reflexivity. }
+      destruct i'; try reflexivity. exfalso. eapply in_index_matches_not_ids; eauto. }
   destruct i; simpl; try exact I; apply H; discriminate.
 Qed.
 
